@@ -180,10 +180,10 @@ theorem bigNorm_Facts (be : BE) (n : Nat) : Facts (treeBigNormalize be n) (bigNo
   simp only [treeBigNormalize]; exact Facts.leaf _
 
 theorem mulPlain_facts (be : BE) (n off : Nat) (res a : G) (bSize ea eb : Nat) (hn : n % 8 = 0)
-    (hea : ea ≤ a.size) (heb : eb ≤ bSize) :
+    (hea : ea ≤ a.size) (heb : eb ≤ bSize) (hoff : cnvHi off a.b2k ≤ ea + eb) :
     Facts (treeGlweMulPlain be n off res a bSize ea eb) (tbGlweMulPlain be n res a bSize) := by
   unfold treeGlweMulPlain
-  simp only
+  simp only [wsub, if_pos hoff]
   have hrd : ea + eb - cnvHi off a.b2k ≤ a.size + bSize := by omega
   have body := cnvBody_facts be hn (ea + eb - cnvHi off a.b2k) (cnvApplyTmp be (ea + eb - cnvHi off a.b2k) ea eb) _ _ (bigNorm_Facts be n)
   have h3 := Facts.alt3 (Facts.leaf (cnvPrepLeftTmp be n ea ea)) (Facts.leaf (cnvPrepRightTmp be n eb eb)) (body.loop (res.rank + 1))
@@ -199,10 +199,10 @@ theorem mulPlain_facts (be : BE) (n off : Nat) (res a : G) (bSize ea eb : Nat) (
   omega
 
 theorem mulPlainAssign_facts (be : BE) (n off : Nat) (res : G) (aSize er ea : Nat) (hn : n % 8 = 0)
-    (her : er ≤ res.size) (hea : ea ≤ aSize) :
+    (her : er ≤ res.size) (hea : ea ≤ aSize) (hoff : cnvHi off res.b2k ≤ ea + er) :
     Facts (treeGlweMulPlainAssign be n off res aSize er ea) (tbGlweMulPlain be n res res aSize) := by
   unfold treeGlweMulPlainAssign
-  simp only
+  simp only [wsub, if_pos hoff]
   have hrd : ea + er - cnvHi off res.b2k ≤ res.size + aSize := by omega
   have body := cnvBody_facts be hn (ea + er - cnvHi off res.b2k) (cnvApplyTmp be (ea + er - cnvHi off res.b2k) er ea) _ _ (bigNorm_Facts be n)
   have h3 := Facts.alt3 (Facts.leaf (cnvPrepLeftTmp be n er er)) (Facts.leaf (cnvPrepRightTmp be n ea ea)) (body.loop (res.rank + 1))
@@ -218,10 +218,10 @@ theorem mulPlainAssign_facts (be : BE) (n off : Nat) (res : G) (aSize er ea : Na
   omega
 
 theorem tensorApply_facts (be : BE) (n off : Nat) (res a : G) (bSize ea eb : Nat) (hn : n % 8 = 0)
-    (hea : ea ≤ a.size) (heb : eb ≤ bSize) (hib : 0 < a.b2k) :
+    (hea : ea ≤ a.size) (heb : eb ≤ bSize) (hib : 0 < a.b2k) (hoff : cnvHi off a.b2k ≤ ea + eb) :
     Facts (treeGlweTensorApply be n off res a bSize ea eb) (tbGlweTensorApply be n res a bSize) := by
   unfold treeGlweTensorApply
-  simp only
+  simp only [wsub, if_pos hoff]
   have hdd := limbBound_le_worst (ea + eb - cnvHi off a.b2k) (a.size + bSize) res.size res.b2k a.b2k (cnvLoBits off a.b2k) hib
     (cnvLoBits_lt off a.b2k hib) (by omega)
   generalize limbBound (ea + eb - cnvHi off a.b2k) res.size res.b2k a.b2k (cnvLoBits off a.b2k) = dd at hdd
@@ -245,10 +245,10 @@ theorem tensorApply_facts (be : BE) (n off : Nat) (res a : G) (bSize ea eb : Nat
   omega
 
 theorem tensorSquare_facts (be : BE) (n off : Nat) (res a : G) (ea : Nat) (hn : n % 8 = 0)
-    (hea : ea ≤ a.size) (hib : 0 < a.b2k) :
+    (hea : ea ≤ a.size) (hib : 0 < a.b2k) (hoff : cnvHi off a.b2k ≤ 2 * ea) :
     Facts (treeGlweTensorSquare be n off res a ea) (tbGlweTensorSquare be n res a) := by
   unfold treeGlweTensorSquare
-  simp only
+  simp only [wsub, if_pos hoff]
   have hdd := limbBound_le_worst (2 * ea - cnvHi off a.b2k) (2 * a.size) res.size res.b2k a.b2k (cnvLoBits off a.b2k) hib
     (cnvLoBits_lt off a.b2k hib) (by omega)
   generalize limbBound (2 * ea - cnvHi off a.b2k) res.size res.b2k a.b2k (cnvLoBits off a.b2k) = dd at hdd
